@@ -509,6 +509,12 @@ func GenRandom(rng *rand.Rand, count int, hidden, repar bool) []*Scn {
 					sc.Lays[0][p-1].Z, sc.Lays[1][p-1].Z = sc.Lays[0][q-1].Z-10, sc.Lays[0][q-1].Z+10
 					x, y := origin(par, sc.Lays[0], m-1)
 					x, y = x+rng.Intn(2), y+rng.Intn(2)
+					if x < 0 { // a pointer position has no negative coordinates
+						x = 0
+					}
+					if y < 0 {
+						y = 0
+					}
 					b := []int{0, 35, 64}[rng.Intn(3)]
 					handover = []Step{key("0"), mouse(35, x, y), key("1"), mouse(b, x, y), mouse(35, x, y), key("0"), mouse(b, x, y)}
 				}
